@@ -46,6 +46,7 @@ import GeoProofs.Lemmas.C08QF64
 import GeoProofs.Lemmas.QHULMain
 import GeoProofs.Lemmas.QHULUniq
 import GeoProofs.Lemmas.QHULDegen
+import GeoProofs.Lemmas.TRAN2Hull
 import Mathlib.Tactic.Linarith
 import Mathlib.Tactic.Ring
 
@@ -1176,5 +1177,40 @@ example : convexHull id [⟨2, 2⟩, ⟨0, 0⟩, ⟨1, 1⟩] = [⟨0, 0⟩, ⟨2
     convexHull id [⟨1, 1⟩, ⟨3, 3⟩, ⟨0, 0⟩, ⟨2, 2⟩, ⟨1, 1⟩] = [⟨3, 3⟩, ⟨0, 0⟩, ⟨3, 3⟩] ∧
     convexHull id [⟨1, 2⟩, ⟨1, 2⟩, ⟨1, 2⟩, ⟨1, 2⟩, ⟨1, 2⟩] = [⟨1, 2⟩, ⟨1, 2⟩] := by
   decide +kernel
+
+/-! ### tie to the source -/
+
+/-- [E2] (translator tie) `utils::lex_cmp` (x first, then y) and the comparator closure of `graham_hull` (orientation about the
+head point: counter-clockwise = Greater, clockwise = Less, collinear = by squared distance from the head) are, in the model, the
+terms `translator/rs2lean.py` regenerates on every run from utils.rs / graham.rs (`GeoModel/Gen/HullGen.lean`): `lexLt` is
+"Less" of the regenerated `lex_cmp`, `grahamLe rnd` is "not Greater" of the regenerated comparator with the kernel's
+`square_euclidean_distance` instantiated by the model's rounded `dist2r rnd`, for every rounding function. A changed arm,
+operand order or comparison changes the regenerated definition and this theorem stops checking. -/
+theorem hullComparators_eq_source :
+    (∀ p q : Pt, (Gen.lexCmp p q == .lt) = lexLt p q) ∧
+    (∀ (rnd : Rat → Rat) (head q r : Pt), (Gen.grahamCmp (dist2r rnd) head q r != .gt) = grahamLe rnd head q r) :=
+  ⟨Geo.Proofs.TRAN2Hull.lexCmp_lt, Geo.Proofs.TRAN2Hull.grahamCmp_le⟩
+
+/-- [E2] (translator tie) `utils::least_index` (the lexicographic-minimum selection: `enumerate().min_by(lex_cmp)`, the FIRST
+minimum, its index) of the model is the term regenerated from utils.rs on every run. -/
+theorem leastIndex_eq_source (pts : List Pt) : Gen.leastIndex pts = leastIndex pts :=
+  Geo.Proofs.TRAN2Hull.leastIndex_eq pts
+
+/-- [E2] (translator tie) the body of `for pt in points.iter()` of `graham_hull` — the `while output.len() > 1` loop that pops
+while the two top points and `pt` do not make a left turn (`break` on counter-clockwise, pop on clockwise, on collinear
+`break` iff `include_on_hull`), followed by the push unless `pt` repeats the top — is, in the model, the term regenerated
+from graham.rs on every run (`Gen.grahamLoopBody`, on the Vec = the reversed stack): it answers `some` (the iteration bound
+`output.len()` the job claims for the `while` always suffices) and the value is `grahamStep`. A changed loop condition, arm,
+`break` / `pop` or push condition changes the regenerated definition and this theorem stops checking.
+Hypothesis: the stack is not empty (in `graham_hull` it always holds the head point; on an empty Vec `last().unwrap()`
+panics, which the model does not mirror). Full statement without it: false for `st = []`, `pt = (0, 0)`, `incl = false`
+(`Gen.unwrap none` is the default point). -/
+theorem grahamLoopBody_eq_source_partial (incl : Bool) (st : List Pt) (pt : Pt) (hne : st ≠ []) :
+    Gen.grahamLoopBody incl st.reverse pt = some ((grahamStep incl st pt).reverse) :=
+  Geo.Proofs.TRAN2Hull.grahamLoopBody_eq incl st pt hne
+
+example : Gen.grahamLoopBody false ([⟨2, 1⟩, ⟨2, 0⟩, ⟨0, 0⟩] : List Pt).reverse ⟨1, 3⟩
+    = some ((grahamStep false [⟨2, 1⟩, ⟨2, 0⟩, ⟨0, 0⟩] ⟨1, 3⟩).reverse) :=
+  grahamLoopBody_eq_source_partial _ _ _ (by simp)
 
 end Geo.Proofs.C08
